@@ -773,7 +773,8 @@ HIbitflush(bitrec_t *bitfile_rec, int flushbit, int writeout)
         }                                /* end else */
     }                                    /* end if */
     if (writeout == TRUE) {              /* only write data out if necessary */
-        write_size = (int)MIN((bitfile_rec->bytez - bitfile_rec->bytea), bitfile_rec->max_offset);
+        /* the buffer holds the block at block_offset: only what lies below max_offset is data */
+        write_size = (int)MIN((bitfile_rec->bytez - bitfile_rec->bytea), bitfile_rec->max_offset - bitfile_rec->block_offset);
         if (write_size > 0)
             if (Hwrite(bitfile_rec->acc_id, write_size, bitfile_rec->bytea) == FAIL)
                 HRETURN_ERROR(DFE_WRITEERROR, FAIL);
